@@ -214,10 +214,16 @@ def check_fem(case, rec):
     if nnz < dense.size: rec.label('sparsity-exploited')
 
 
-SUBS = [Sub('coo', strategy, check, {'quick': 3000, 'thorough': 30000}, weight=3, timeout=30),
+SUBS = [Sub('coo', strategy, check, {'quick': 3000, 'thorough': 30000}, weight=3, timeout=25),
         Sub('fem', fem_cases, check_fem, {'quick': 25, 'thorough': 400}, weight=1, timeout=120)]
 
-TRIGGERS = {}
+def _upstream_c01(case, v):
+    prog = case.get('prog', case)
+    ops = {n['op'] for n in prog['nodes']}
+    return 'diagonalize' in ops and bool(ops & {'inflate', 'take'})
+
+
+TRIGGERS = {'upstream-C01-inflate-diagonalize': _upstream_c01}
 
 MANIFEST = dict(
     category='exploration',
